@@ -14,7 +14,7 @@ func baseKnobs(r *rand.Rand) drv.Knobs {
 		MapSeed:   1 + r.Uint64N(1<<40),
 		UUIDSeed:  1 + r.Uint64N(1<<40),
 		SchedSeed: 1 + r.Uint64N(1<<40),
-		Bias:      r.IntN(2),
+		Bias:      r.IntN(3), // 0 uniform, 1 sticky, 2 priority (PCT-like)
 	}
 	switch r.IntN(4) {
 	case 0:
